@@ -50,7 +50,7 @@ def parse_in_context(orc, ctx, texts):
             tree = q['exprs'][0] if q['exprs'] else None
             if tree and tree.startswith('(EF '):
                 tree = tree[4:-1]
-            out.append((q['new_errors'], tree, q.get('exc')))
+            out.append((q['new_errors'], tree, q.get('exc'), [m for m in q.get('msgs', [])]))
         elif ctx == 'init':
             vs = [v for v in st['doc']['globals']['variables'] if v['name'] == 'zz']
             out.append((st.get('n_errors', 0), vs[0]['init'] if vs else None, st.get('exc')))
@@ -64,7 +64,12 @@ def check_tree(orc, t, ctx='expr'):
     res, raw = parse_in_context(orc, ctx, [rmin, rfull])
     if res is None:
         return ('min+full', 'crash', oracle.crash_descriptor(raw['crash'])['kind'])
-    for mode, text, (nerr, tree, exc) in zip(('min', 'full'), (rmin, rfull), res):
+    for mode, text, r_ in zip(('min', 'full'), (rmin, rfull), res):
+        nerr, tree, exc = r_[0], r_[1], r_[2]
+        if ctx == 'query' and tree is None and nerr and not exc and not any('syntax_error' in m for m in r_[3]):
+            # a query is type checked while it is built: a semantically rejected expression (side effect, type error) leaves no
+            # tree to compare; that is C11 / the type system, not the grammar. Counted, not judged.
+            return ('filtered', 'query-rejected-semantically', text)
         if exc:
             return (mode, 'throws', '%s: %s' % (exc.get('class'), text))
         if tree != exp:
@@ -109,6 +114,12 @@ def replace(t, pos, new):
     return tuple(l)
 
 
+def judged_tree(orc, t, ctx):
+    """check_tree without the verdict-free 'filtered' outcome"""
+    f = check_tree(orc, t, ctx)
+    return None if (f is not None and f[0] == 'filtered') else f
+
+
 def localise(orc, t, ctx):
     """smallest failing subtree all of whose children pass + relevant child positions -> descriptor"""
     cur = t
@@ -117,17 +128,17 @@ def localise(orc, t, ctx):
         for pos, ch in children(cur):
             if ch[0] in ('id', 'int', 'dbl', 'bool'):
                 continue
-            if check_tree(orc, ch, ctx) is not None:
+            if judged_tree(orc, ch, ctx) is not None:
                 cur = ch
                 moved = True
                 break
         if not moved:
             break
-    f = check_tree(orc, cur, ctx)
+    f = judged_tree(orc, cur, ctx)
     if f is None:
         # only fails in the context of its parent: describe the original
         cur = t
-        f = check_tree(orc, cur, ctx)
+        f = judged_tree(orc, cur, ctx)
         if f is None:
             return None, None, None
     d = {'mode': f[0], 'failure': f[1], 'root': form_of(cur), 'context': ctx}
@@ -136,7 +147,7 @@ def localise(orc, t, ctx):
         if ch[0] == 'id':
             k += 1
             continue
-        if check_tree(orc, replace(cur, pos, ('id', 'c')), ctx) is None:
+        if judged_tree(orc, replace(cur, pos, ('id', 'c')), ctx) is None:
             d['child%d' % k] = form_of(ch)
         k += 1
     return d, f, cur
@@ -152,6 +163,9 @@ def test_tree(chk, st, orc, t, ctx, enum_label=None):
             sample={'min': G.render(t, 'min'), 'full': G.render(t, 'full'), 'tree': exp, 'context': ctx})
     f = check_tree(orc, t, ctx)
     if f is None:
+        return None
+    if f[0] == 'filtered':
+        st.extra['query_context_rejected_semantically_(not_judged)'] += 1
         return None
     d, f2, small = localise(orc, t, ctx)
     if d is None:
@@ -274,7 +288,7 @@ def confirm(case):
     orc = oracle.Oracle(os.path.join(common.WORK, 'C02', 'confirm'), cpu_limit=30)
     try:
         if case['kind'] == 'tree':
-            f = check_tree(orc, tup(json.loads(case['tree'])), case.get('context', 'expr'))
+            f = judged_tree(orc, tup(json.loads(case['tree'])), case.get('context', 'expr'))
             return ({}, f[2]) if f else None
         st = common.Stats()
         chk = common.Check('C02', 'quick', 0)
